@@ -261,3 +261,48 @@ Lemma rule_strings_classified :
                        [rule_is_global s; rule_is_localp s; rule_is_wavelet s; rule_is_fourier s])) 1))
           rule_strings = true.
 Proof. vm_compute. reflexivity. Qed.
+
+(* ------------------------------------------------------------------------------------------------ *)
+(* the dispatch switch of executeCommand (regenerated) against the plans: the handler that the source selects for a
+   command is the one whose library call the documented plan of that command contains *)
+Definition handler_matches (h : handler) (a : api) : bool :=
+  match h, a with
+  | HUpdate, UpdateGrid _ _ _ => true
+  | HEvalLike, (EvaluateBatch _ _ | Differentiate _ _ | InterpolationWeights _ _ | DifferentiationWeights _ _
+               | HierarchicalDense _ _ | HierarchicalSparse _ _) => true
+  | HOutputLike, (Integrate _ | HierarchicalSupport _ | AnisoCoefficients _ _ _) => true
+  | HGetCoefficients, GetCoefficients _ _ => true
+  | HLoadValues, (LoadNeededValues _ | LoadConstructedPoints _ _) => true
+  | HSetCoefficients, SetCoefficients _ _ => true
+  | HCancelRefine, ClearRefinement => true
+  | HMergeRefine, MergeRefinement => true
+  | HUsingConstruct, PrintUsingConstruction => true
+  | HSummary, PrintStats => true
+  | HIndexes, (OutPointsIndexes _ | OutNeededIndexes _) => true
+  | HGetPoly, GlobalPolynomialSpace _ _ => true
+  | HRefine, (AnisoRefine _ _ _ _ | SurplusRefine _ _ _ _ _ _) => true
+  | HCandidates, (CandidatesAnisoWeights _ _ _ _ | CandidatesAnisoOutput _ _ _ _ | CandidatesSurplus _ _ _ _ _ _ _) => true
+  | _, _ => false
+  end.
+
+Lemma dispatch_matches_plan (c : command) (h : handler) :
+  In (c, h) dispatch -> forall r g, r_cmd r = c -> existsb (handler_matches h) (body r g) = true.
+Proof.
+  intros Hin r g Hc. unfold dispatch in Hin. cbn [In] in Hin.
+  repeat (destruct Hin as [Hin|Hin]; [injection Hin as <- <-; unfold body, refine_calls, candidate_calls; rewrite Hc;
+    repeat match goal with |- context [if ?b then _ else _] => destruct b end; reflexivity|]).
+  destruct Hin.
+Qed.
+
+(* ... and every command that works on an existing grid and has a non-trivial body is in the dispatch switch, or is
+   one of the commands handled by the output section / the conformal section of executeCommand *)
+Definition handled_outside_switch (c : command) : bool :=
+  match c with
+  | command_setconformal | command_getquadrature | command_getpoints | command_getneeded => true
+  | _ => false
+  end.
+
+Lemma dispatch_covers_commands :
+  forallb (fun c => is_make c || command_beq c command_makeexoquad || handled_outside_switch c ||
+                    existsb (fun ch => command_beq c (fst ch)) dispatch) all_commands = true.
+Proof. vm_compute. reflexivity. Qed.
